@@ -45,7 +45,7 @@ class Prof:
         self.max_ops = 8
         self.max_shared = 3
         self.w = {'timeout': 6, 'wait': 2, 'succeed': 2, 'fail': 0, 'spawn': 1, 'join': 1,
-                  'interrupt': 0, 'cond': 0, 'ret': 1, 'raise': 0, 'negtimeout': 0, 'addcb': 0}
+                  'interrupt': 0, 'cond': 0, 'ret': 1, 'raise': 0, 'negtimeout': 0, 'addcb': 0, 'fire': 0}
         self.handlers = ['cont', 'cont', 'rewait', 'ret', 'other']
         self.pool = 'GRID'
         self.top_timeouts = 2
@@ -73,8 +73,17 @@ def gen_tree(rng, prof, ctx, depth):
     return {'t': t, 'kids': [gen_tree(rng, prof, ctx, depth - 1) for _ in range(n)]}
 
 
+FALSY = [0, '', False, 0.0, None]
+
+
 def gen_ops(rng, prof, ctx, pid, depth):
     pool = POOLS[prof.pool]
+
+    def pv():
+        # mostly unique values (every outcome attributable to one trigger), sometimes falsy ones
+        if rng.random() < 0.15:
+            return rng.choice(FALSY)
+        return ctx['val']()
     ops = []
     n = rng.randint(1, prof.max_ops)
     kinds = [k for k, w in prof.w.items() for _ in range(w)]
@@ -82,7 +91,7 @@ def gen_ops(rng, prof, ctx, pid, depth):
         k = rng.choice(kinds)
         h = rng.choice(prof.handlers)
         if k == 'timeout':
-            op = {'op': 'timeout', 'd': rng.choice(pool), 'v': ctx['val'](), 'h': h}
+            op = {'op': 'timeout', 'd': rng.choice(pool), 'v': pv(), 'h': h}
         elif k == 'wait':
             if not ctx['shared']:
                 continue
@@ -90,7 +99,7 @@ def gen_ops(rng, prof, ctx, pid, depth):
         elif k == 'succeed':
             if not ctx['shared']:
                 continue
-            op = {'op': 'succeed', 'ev': rng.choice(ctx['shared']), 'v': ctx['val']()}
+            op = {'op': 'succeed', 'ev': rng.choice(ctx['shared']), 'v': pv()}
         elif k == 'fail':
             if not ctx['shared']:
                 continue
@@ -118,13 +127,15 @@ def gen_ops(rng, prof, ctx, pid, depth):
         elif k == 'ret':
             if rng.random() < 0.5:
                 continue
-            op = {'op': 'ret', 'v': ctx['val']()}
+            op = {'op': 'ret', 'v': pv()}
         elif k == 'raise':
             if rng.random() < 0.5:
                 continue
             op = {'op': 'raise', 'exc': [rng.choice(sorted(EXC)), [ctx['val']()]]}
         elif k == 'negtimeout':
             op = {'op': 'negtimeout', 'd': -rng.choice([1, 0.5, 2.0 ** -52, 1e-9, 3])}
+        elif k == 'fire':
+            op = {'op': 'fire', 'd': rng.choice(pool), 'v': ctx['val'](), 'cb': 'f%d' % ctx['val']()}
         elif k == 'addcb':
             if not ctx['shared']:
                 continue
@@ -269,14 +280,13 @@ class World:
                 v = yield ev
             except GeneratorExit:
                 raise
-            except Interrupt as e:
-                self.rec('R', pid, i, lb, 'intr', san(e.cause), None)
-                if h == 'none':
-                    raise
             except BaseException as e:
-                orig = getattr(ev, '_value', None)
-                self.rec('R', pid, i, lb, 'exc', (type(e).__name__, san(e.args)),
-                         (e is not orig) and (e.__cause__ is orig))
+                # A delivered interrupt reaches a process only while its target is unprocessed; a failure is
+                # thrown only once the target is processed (a process may fail with an Interrupt of its own).
+                if isinstance(e, Interrupt) and not (ev.callbacks is None and not ev.ok):
+                    self.rec('R', pid, i, lb, 'intr', san(e.cause), None)
+                else:
+                    self.rec('R', pid, i, lb, 'exc', (type(e).__name__, san(e.args)), None)
                 if h == 'none':
                     raise
             else:
@@ -363,6 +373,15 @@ class World:
                     tgt = self.shared.get(op['ev'])
                     if tgt is not None:
                         self.add_cb(tgt, op['id'], op.get('defuse', False), pid)
+                    continue
+                elif k == 'fire':
+                    try:
+                        fev = env.timeout(op['d'], op.get('v'))
+                    except ValueError:
+                        continue
+                    env.name(fev, '%s.%d' % (pid, i))
+                    fev.callbacks.append(self.make_cb(op.get('cb', 'f'), False))
+                    self.rec('O', pid, i, 'addcb', '%s.%d' % (pid, i), op.get('cb', 'f'), 'plain')
                     continue
                 elif k == 'negtimeout':
                     n0 = len(env.log)
